@@ -1037,4 +1037,7 @@ var zeroStubs = map[string]bool{
 	"github.com/google/osv-scalibr/log.Errorf": true, "github.com/google/osv-scalibr/log.Debugf": true,
 	"github.com/google/osv-scalibr/log.Info": true, "github.com/google/osv-scalibr/log.Warn": true,
 	"github.com/google/osv-scalibr/log.Error": true, "github.com/google/osv-scalibr/log.Debug": true,
+	// package-level random sources (seeded from the clock in some detectors' initialisers): no
+	// checked property observes randomness; a nil source panics if it is ever used
+	"math/rand.NewSource": true, "math/rand.New": true,
 }
